@@ -324,4 +324,30 @@ def Arg.kids : Arg → List Tree
   | .node t => [t]
   | .frag _ ks => ks
 
+
+/-! ### the substitution table of a document
+
+`TeXDocument.__init__`: `self.charsubs = [x for x in TeXDocument.defaultCharsubs if x[0] not in
+self.config["document"]["disable-charsub"]]` — a **new list** per document; the class attribute is
+read, never written.  The state of a process that creates documents one after the other is the class
+table. -/
+
+abbrev SubTable := List (List Nat × List Nat)
+
+/-- the table a new document gets from the class table `cls` under the option `disabled` -/
+def docCharsubs (cls : SubTable) (disabled : List (List Nat)) : SubTable :=
+  cls.filter fun sd => !(disabled.contains sd.1)
+
+/-- one `TeXDocument(config)`: (class table afterwards, the document's table) -/
+def createDoc (cls : SubTable) (disabled : List (List Nat)) : SubTable × SubTable :=
+  (cls, docCharsubs cls disabled)
+
+/-- a batch: documents created one after the other; (class table at the end, tables of the documents) -/
+def createDocs (cls : SubTable) : List (List (List Nat)) → SubTable × List SubTable
+  | [] => (cls, [])
+  | d :: ds =>
+    let r := createDoc cls d
+    let rest := createDocs r.1 ds
+    (rest.1, r.2 :: rest.2)
+
 end PlasVerif.Model.Digest
